@@ -48,6 +48,17 @@ var foreignNames = []string{"", " ", "add", "ADD", "Add ", " Add", "Add\x00", "R
 	"Tile", "Split", "Resize", "GlobalAveragePool", "Loop", "If", "Scan", "ArgMin", "Lstm", "lstm", "Gru", "Rnn", "MatMulInteger", "Gemm13",
 	"ConstantOfshape", "Constant_", "com.microsoft.Gelu", "ai.onnx.Add", "Add:13", "Conv2D", "QLinearConv", "é", "Ａdd", "Softmax\n"}
 
+// goNativeDtypes are gorgonia element types that no ONNX type maps to; no gate
+// may let them through (ops.AllTypes lists the ONNX types only).
+var goNativeDtypes = []tensor.Dtype{tensor.Int, tensor.Uint, tensor.Uintptr}
+
+func gateDtypeName(d int) string {
+	if d < len(gen.All14) {
+		return gen.All14[d].String()
+	}
+	return "Go " + goNativeDtypes[d-len(gen.All14)].String()
+}
+
 type gateCase struct {
 	op    string
 	n     int // number of inputs supplied
@@ -63,12 +74,16 @@ func c15Enumerate() []gateCase {
 		ar := onnxArity[name]
 		max := ar[1]
 		if max < 0 {
-			max = 4 // variadic Concat: counts 0..6
+			max = 10 // variadic Concat: counts 0..12
 		}
 		for n := 0; n <= max+2; n++ {
 			out = append(out, gateCase{op: name, n: n, pos: -1, nilAt: -1})
 			for pos := 0; pos < n; pos++ {
-				for d := range gen.All14 {
+				for d := 0; d < len(gen.All14)+len(goNativeDtypes); d++ {
+					if d >= len(gen.All14) { // element types that are not ONNX types at all: alone, no nil combinations
+						out = append(out, gateCase{op: name, n: n, pos: pos, dt: d, nilAt: -1})
+						continue
+					}
 					out = append(out, gateCase{op: name, n: n, pos: pos, dt: d, nilAt: -1})
 					// ... combined with nil at every optional position (an omitted input in
 					// the middle of the list must not switch the type check off for later ones)
@@ -89,7 +104,7 @@ func c15Enumerate() []gateCase {
 
 var c15Space = c15Enumerate()
 
-const c15Registry = 400 // registry/lookup cases appended after the gate space
+const c15Registry = 1200 // registry/lookup cases appended after the gate space
 
 func init() {
 	Register(&Property{
@@ -103,7 +118,7 @@ func init() {
 		},
 		Run:            c15Run,
 		Floor:          func(tier string) int { return 5000 },
-		Rule:           "complete enumeration: 55 operators x input count 0..max+2 (Concat 0..6) x each of the 14 element types at each supplied position (other positions carry an allowed type) x nil at each optional position (alone and combined with every type probe at every other position); every second list is a prefix of a larger array with other tensors behind its length, through Operator.ValidateInputs of a fresh instance from opset13.GetOperator; arities cross-checked against an independent table typed in from the ONNX spec. Then 400 registry cases: every name resolves, repeated lookups are state-independent (a fresh instance prints identically before and after another instance of the same name was Init-ed with non-default attributes and applied), foreign names yield ErrUnsupportedOperator; and single-node models observed through the operator proxy: a rejected gate is never followed by an apply event. A gate case is non-trivial when it is rejected or pads optional inputs; distinct = distinct (op, count, position, dtype, nil position).",
+		Rule:           "complete enumeration: 55 operators x input count 0..max+2 (Concat 0..12) x each of the 14 ONNX element types and of 3 gorgonia element types that are not ONNX types (int, uint, uintptr) at each supplied position (other positions carry an allowed type) x nil at each optional position (alone and combined with every type probe at every other position); every second list is a prefix of a larger array with other tensors behind its length, through Operator.ValidateInputs of a fresh instance from opset13.GetOperator; arities cross-checked against an independent table typed in from the ONNX spec. Then 400 registry cases: every name resolves, repeated lookups are state-independent (a fresh instance prints identically before and after another instance of the same name was Init-ed with non-default attributes and applied), foreign names yield ErrUnsupportedOperator; and single-node models observed through the operator proxy: a rejected gate is never followed by an apply event. A gate case is non-trivial when it is rejected or pads optional inputs; distinct = distinct (op, count, position, dtype, nil position).",
 		Exhaustive:     func(tier string) bool { return true },
 		RaceInThorough: true,
 		Technique:      "runtime monitoring: exhaustive enumeration of the finite gate space against the operators' declared constraints and an independent ONNX arity table; proxy trace check 'no apply after a failed validate'",
@@ -123,7 +138,7 @@ func c15Run(c *Ctx) {
 		idx = (c.Idx*4 + int(c.Seed%4)) % len(c15Space)
 	}
 	gc := c15Space[idx]
-	c.SetCase("gate %s: %d inputs, dtype %v at position %d, nil at %d", gc.op, gc.n, gen.All14[gc.dt], gc.pos, gc.nilAt)
+	c.SetCase("gate %s: %d inputs, dtype %v at position %d, nil at %d", gc.op, gc.n, gateDtypeName(gc.dt), gc.pos, gc.nilAt)
 	o := mon.Capture(nil, func() ([]tensor.Tensor, error) { return nil, c15Gate(c, gc) })
 	if o.Kind == mon.Panic {
 		c.Violation("gate:"+gc.op+":panic", "input gate panicked: %s", o.Describe())
@@ -158,8 +173,13 @@ func c15Gate(c *Ctx, gc gateCase) error {
 		c.Violation("gate:"+gc.op+":arity-differs-from-onnx", "operator declares min %d inputs, ONNX specifies %d", min, ar[0])
 	}
 	allowedAt := func(i int, d tensor.Dtype) bool {
+		for _, g := range goNativeDtypes {
+			if d == g {
+				return false // not an ONNX element type: allowed nowhere
+			}
+		}
 		if variadic {
-			return true // Concat accepts all types at all positions
+			return true // Concat accepts all (ONNX) types at all positions
 		}
 		for _, a := range cons[i] {
 			if a == d {
@@ -172,7 +192,11 @@ func c15Gate(c *Ctx, gc gateCase) error {
 	in := make([]tensor.Tensor, gc.n)
 	var probe tensor.Dtype
 	if gc.pos >= 0 {
-		probe = dtName(gen.All14[gc.dt])
+		if gc.dt < len(gen.All14) {
+			probe = dtName(gen.All14[gc.dt])
+		} else {
+			probe = goNativeDtypes[gc.dt-len(gen.All14)]
+		}
 	}
 	expectTypeErr := false
 	for i := 0; i < gc.n; i++ {
@@ -190,9 +214,18 @@ func c15Gate(c *Ctx, gc gateCase) error {
 		default:
 			d = cons[i][0]
 		}
-		rd, _ := mon.RefDtype(d)
-		in[i] = mon.ToTensor(c.R.Tensor(rd, []int{2}, gen.FillUnique, 0))
-		if !variadic && i < max && !allowedAt(i, d) {
+		switch d {
+		case tensor.Int:
+			in[i] = tensor.New(tensor.WithShape(2), tensor.WithBacking([]int{1, 2}))
+		case tensor.Uint:
+			in[i] = tensor.New(tensor.WithShape(2), tensor.WithBacking([]uint{1, 2}))
+		case tensor.Uintptr:
+			in[i] = tensor.New(tensor.WithShape(2), tensor.WithBacking([]uintptr{1, 2}))
+		default:
+			rd, _ := mon.RefDtype(d)
+			in[i] = mon.ToTensor(c.R.Tensor(rd, []int{2}, gen.FillUnique, 0))
+		}
+		if (!variadic && i < max || variadic) && !allowedAt(i, d) {
 			expectTypeErr = true
 		}
 	}
@@ -264,7 +297,7 @@ func c15Gate(c *Ctx, gc gateCase) error {
 		}
 	}
 	if c.Idx%1500 == 7 {
-		c.Sample(map[string]any{"operator": gc.op, "inputs": gc.n, "probe_position": gc.pos, "probe_dtype": gen.All14[gc.dt].String(), "nil_position": gc.nilAt, "declared_min_max": []int{min, max}, "error": fmt.Sprint(verr)})
+		c.Sample(map[string]any{"operator": gc.op, "inputs": gc.n, "probe_position": gc.pos, "probe_dtype": gateDtypeName(gc.dt), "nil_position": gc.nilAt, "declared_min_max": []int{min, max}, "error": fmt.Sprint(verr)})
 	}
 	return nil
 }
@@ -484,7 +517,7 @@ func c15ForeignModel(c *Ctx, name string) {
 	}
 	foreign := mon.GNode{Op: name, Inputs: []string{"a"}, Outputs: []string{"b"}}
 	var nodes []mon.GNode
-	layout := r.Intn(6)
+	layout := r.Intn(8)
 	desc := ""
 	switch layout {
 	case 0: // in the middle of a chain
@@ -500,9 +533,14 @@ func c15ForeignModel(c *Ctx, name string) {
 	case 4: // no outputs at all
 		foreign.Outputs = nil
 		nodes, desc = []mon.GNode{relu("x", "a"), foreign, relu("a", "y")}, "node without outputs"
-	default: // only omitted outputs
+	case 5: // only omitted outputs
 		foreign.Outputs = make([]string, r.Range(1, 3))
 		nodes, desc = []mon.GNode{relu("x", "a"), foreign, relu("a", "y")}, "node with only omitted (\"\") outputs"
+	case 6: // listed last, after every graph output has been computed, result unused
+		nodes, desc = []mon.GNode{relu("x", "a"), relu("a", "y"), foreign}, "trailing dead node"
+	default: // listed last, consuming the graph output
+		foreign.Inputs = []string{"y"}
+		nodes, desc = []mon.GNode{relu("x", "a"), relu("a", "y"), foreign}, "trailing consumer of the graph output"
 	}
 	if r.Chance(0.3) { // no inputs either / a skipped input
 		for i := range nodes {
@@ -545,13 +583,19 @@ func c15ForeignModel(c *Ctx, name string) {
 // apply event of that node (observed through the proxy).
 func c15GateBeforeCompute(c *Ctx) {
 	name := c15Names[c.R.Intn(len(c15Names))]
+	if c.R.Chance(0.2) { // the two operators whose arity is special: no inputs at all / any number
+		name = c.R.PickStr("Constant", "Concat")
+	}
 	req, _, ok := SampleValidReq(c.R, name, false)
-	if !ok || len(req.Inputs) == 0 {
+	if !ok || (len(req.Inputs) == 0 && name != "Constant") {
 		c.Skip("no sample request")
 		return
 	}
 	// break the request: wrong dtype at one position, or wrong count
 	mode := c.R.Intn(3)
+	if name == "Constant" {
+		mode = 1 // only a surplus input can be wrong
+	}
 	bad := req
 	bad.Inputs = append([]*ref.T{}, req.Inputs...)
 	switch mode {
